@@ -99,6 +99,8 @@ struct Target<'a> {
     mty: Ty,
     unordered: bool,
     decode: &'a dyn Fn(&[u8]) -> Native,
+    /// decoding at `Option<T>` (corpus targets only)
+    decode_opt: Option<&'a dyn Fn(&[u8]) -> Native>,
     accepts: Option<fn(&Val) -> bool>,
 }
 
@@ -176,6 +178,67 @@ fn check_target(tg: &Target, tier: Tier, rep: &mut Report) {
             (Native::Err(_), ImplOutcome::Err(_)) => rep.outcome("both-reject"),
         }
         let _ = same_type;
+        // ---- the same message one level down: wire `opt wt` carrying `some v`, target `Option<T>`. A mismatch
+        //      below the option must be recoverable (null) for the native target exactly as for the untyped one.
+        if bad.is_none() {
+            if let Some(dopt) = tg.decode_opt {
+                if let Ok(obytes) = wire::encode(&env, &[Ty::opt(wt.clone())], &[Val::some(v.clone())], true) {
+                    rep.evaluations += 1;
+                    rep.transitions += 2;
+                    rep.traces_validated += 1;
+                    let onative = dopt(&obytes);
+                    let ountyped = impl_decode_at(&obytes, &renv, &[bridge::to_real_ty(&Ty::opt(tg.mty.clone()))]);
+                    let unordered = tg.unordered || tg.name.contains("Map") || tg.name.contains("Set") || tg.name.contains("Heap");
+                    let obad: Option<(String, String)> = match (&onative, &ountyped) {
+                        (Native::Panic(p), _) => Some(("under-opt:native-panic".into(), p.clone())),
+                        (_, ImplOutcome::Panic(p)) => Some(("under-opt:untyped-panic".into(), p.clone())),
+                        (_, ImplOutcome::Bridge(e)) => Some(("under-opt:untyped-bridge".into(), e.clone())),
+                        (Native::Ok { val, .. }, ImplOutcome::Ok(u)) => {
+                            let u0 = &u[0];
+                            rep.outcome(if matches!(u0, Val::Opt(None)) { "under-opt:both-null" } else { "under-opt:both-some" });
+                            let eq = if unordered { canon(val) == canon(u0) } else { val == u0 };
+                            // host limits (128-bit range, array length, duplicate keys) make the native side read null
+                            let excused = matches!(val, Val::Opt(None))
+                                && ((big(u0) && (tg.name.contains("128") || tg.name.contains("usize"))) || (tg.name.contains(";2]") && wrong_array_len(u0)));
+                            if !eq && !has_dups(u0) && !excused {
+                                Some(("under-opt:value-differs".into(), format!("native {val}, untyped {u0}")))
+                            } else {
+                                None
+                            }
+                        }
+                        (Native::Err(e), ImplOutcome::Ok(u)) => {
+                            // documented host limits surface as hard errors of the host type's own deserializer
+                            let u0 = &u[0];
+                            let excused = (big(u0) && (tg.name.contains("128") || tg.name.contains("usize"))) || (tg.name.contains(";2]") && wrong_array_len(u0));
+                            if excused {
+                                rep.outcome("under-opt:native-rejects:documented-host-limit");
+                                None
+                            } else {
+                                Some(("under-opt:native-rejects".into(), format!("native: {e}; untyped accepts as {u0}")))
+                            }
+                        }
+                        (Native::Ok { val, .. }, ImplOutcome::Err(e)) => Some(("under-opt:native-accepts".into(), format!("native accepts as {val}; untyped: {e}"))),
+                        (Native::Err(_), ImplOutcome::Err(_)) => {
+                            rep.outcome("under-opt:both-reject");
+                            None
+                        }
+                    };
+                    if let Some((cls, msg)) = obad {
+                        rep.outcome(&format!("disagree:{cls}"));
+                        let k = format!("{cls}|{}|wire=opt_{}", tg.name, wt);
+                        if reported.insert(k.clone()) && reported.len() <= 6 {
+                            rep.violation(
+                                &k,
+                                format!("Option<{}> <- ?{} : opt {}: {}", tg.name, v, wt, first_line(&msg)),
+                                json!({"target": tg.name, "under_opt": true, "wire_type": format!("opt {wt}"), "wire_env": env.to_string(), "value": format!("?{v}"), "bytes": hex(&obytes)}),
+                            );
+                        } else {
+                            rep.violation_count += 1;
+                        }
+                    }
+                }
+            }
+        }
         if let Some((cls, msg)) = bad {
             rep.outcome(&format!("disagree:{cls}"));
             rep.violation_count += 1;
@@ -203,7 +266,8 @@ pub fn run(tier: Tier, replay: Option<&str>) -> i32 {
         let e = &es[i as usize];
         let (menv, mty) = (e.model_ty)();
         let dec = |b: &[u8]| (e.decode)(b);
-        let tg = Target { name: &e.name, menv, mty, unordered: e.unordered, decode: &dec, accepts: None };
+        let deco = |b: &[u8]| (e.decode_opt)(b);
+        let tg = Target { name: &e.name, menv, mty, unordered: e.unordered, decode: &dec, decode_opt: Some(&deco), accepts: None };
         check_target(&tg, tier, rep);
         if i % 149 == 0 {
             rep.sample(json!({"target": e.name, "type": tg.mty.to_string()}));
@@ -215,7 +279,7 @@ pub fn run(tier: Tier, replay: Option<&str>) -> i32 {
         let s = &sp[i as usize];
         let (menv, mty) = (s.model_ty)();
         let dec = |b: &[u8]| (s.decode)(b);
-        let tg = Target { name: &s.name, menv, mty, unordered: false, decode: &dec, accepts: Some(s.accepts) };
+        let tg = Target { name: &s.name, menv, mty, unordered: false, decode: &dec, decode_opt: None, accepts: Some(s.accepts) };
         // bounded vectors need longer vectors than the tiny domain gives: add explicit lengths
         check_target(&tg, Tier::Thorough, rep);
         if s.name.starts_with("Bounded") {
@@ -271,7 +335,11 @@ fn replay_case(path: &str) -> i32 {
     let sp = decode_only();
     let (native, menv, mty) = if let Some(e) = es.iter().find(|e| e.name == name) {
         let (a, b) = (e.model_ty)();
-        ((e.decode)(&bytes), a, b)
+        if c["under_opt"].as_bool() == Some(true) {
+            ((e.decode_opt)(&bytes), a, Ty::opt(b))
+        } else {
+            ((e.decode)(&bytes), a, b)
+        }
     } else if let Some(s) = sp.iter().find(|s| s.name == name) {
         let (a, b) = (s.model_ty)();
         ((s.decode)(&bytes), a, b)
